@@ -110,7 +110,12 @@ func PubKeyToAddr(addressID int32, pubKey []byte) string {
 	if addressID < 0 {
 		addressID = defaultAddressID
 	}
-	d := MustLoadDriver(addressID)
+	// the address id is taken from the unsigned signature type of a transaction:
+	// an unknown id must not panic (it is simply not an address of this chain)
+	d, err := LoadDriver(addressID, -1)
+	if err != nil {
+		return ""
+	}
 	return d.PubKeyToAddr(pubKey)
 }
 
